@@ -254,11 +254,13 @@ CLAIMED["C17"] = dict(
   design="§6 C17")
 
 CLAIMED["C03"] = dict(
-  technique="Lean 4 proof by kernel evaluation of the group model on the regenerated tables (prefix-related member names, two declaration orders, default placeholders, repeats, escaped literal text); reference-slice sweep for the unbounded statement",
+  technique="Lean 4 proof: kernel evaluation of the group model on the regenerated tables (prefix-related member names, two declaration orders, default placeholders, repeats incl. inner repeats, escaped literal text) and general theorems by induction about occurrence-tagged capture keys; reference-slice sweep for the unbounded statement",
   text=("Theorems (kernel-evaluated, declaration with member names date / datetime / date_time - prefixes of one another - in two declaration orders): C03_members - every member of the "
         "parsed group is exactly the object the member's own class parses from its own slice (memberAgrees compares the two objects), whatever the declaration order; C03_default_fmt - a "
         "placeholder without a format uses the member's base format and an omitted member is the default; C03_repeats - agreeing occurrences are merged, disagreeing ones rejected with "
-        "FormatterValueError; C03_format - formatting is the members' renderings joined by the literal text and what was printed parses back; C03_literal - escaped literal text with regex "
+        "FormatterValueError; C03_repeats_inner - the same for a directive repeated inside an occurrence that is itself repeated, at every disagreeing position (captures of different "
+        "occurrences are kept apart: translator flag group_merge_apart, read off the code's behaviour); general (induction over the key): C03_tag_keeps_field / C03_tags_apart / "
+        "C03_single_occurrence - tagging a capture key with its occurrence never changes the field it maps back to and never merges two keys; C03_format - formatting is the members' renderings joined by the literal text and what was printed parses back; C03_literal - escaped literal text with regex "
         "metacharacters matches itself around placeholders; C03_unknown - a placeholder naming no member is FormatterGroupArgumentError. The statement for all declarations (1..4 members of "
         "the five formatters and constants), names, orders, formats and C01-domain values is decided by the sweep - each member's own parse/format of its slice is the reference - and by "
         "the correspondence (group.gen_format / parse / parse_format / cmp)."),
